@@ -61,8 +61,8 @@ pub fn scenarios(tier: &str) -> Vec<Scenario> {
     // ---- C01-tables: shallow, wide ------------------------------------------------------------
     let tables_alpha = vec![
         set1,
-        m_block("B(set0=0)", vec![s_set(0, 0, 0)]),
-        m_block("B(set0=1,set1=1)", vec![s_set(0, 0, 1), s_set(1, 1, 1)]),
+        m_block("B(set0=0,wide=0)", vec![s_set(0, 0, 0), s_setwide(1, 0)]),
+        m_block("B(set0=1,set1=1,wide=5)", vec![s_set(0, 0, 1), s_set(1, 1, 1), s_setwide(2, 5)]),
         m_block("B(create)", vec![s_call(1, vec![2])]),
         m_block("B(die)", vec![s_call(1, vec![3])]),
         m_block("B(deposit)", vec![TxSpec::Deposit { pk: 1, ticker: "ordi".into(), amount: "0x5".into() }]),
